@@ -1171,7 +1171,9 @@ class SetCore:
         d = len(o.N)
         k = rng.randint(0, d - 1) if rng.random() < 0.9 else rng.choice([-1, d])
         return [x.sid], {'k': k, 'n': rng.randint(1, 4), 'm': rng.randint(1, 4), 'keep': rng.random() < 0.4,
-                         'badrank': rng.random() < 0.1, 'vseed': rng.getrandbits(31)}
+                         'badrank': rng.random() < 0.1, 'vseed': rng.getrandbits(31),
+                         # a core of a kind that is rejected only late (numpy array, wrong dtype, wrong number of dims)
+                         'bad_kind': rng.choice([None] * 8 + ['numpy', 'list', 'ndim'])}
 
     @staticmethod
     def run(S, objs, p):
@@ -1187,6 +1189,13 @@ class SetCore:
         else:
             n = int(c.shape[1]) if p['keep'] else p['n']
             new = gen.randn([r0, n, r1], dtn(x), g)
+        bk = p.get('bad_kind')
+        if bk == 'numpy':
+            new = new.numpy()
+        elif bk == 'list':
+            new = new.tolist()
+        elif bk == 'ndim':
+            new = new.reshape(list(new.shape) + [1])
         x.set_core(k, new)
         return None
 
@@ -1204,11 +1213,15 @@ class ReduceDims:
         x = rng.choice(c)
         d = len(x.obj.N)
         excl = sorted(rng.sample(range(d), rng.randint(0, 1))) if rng.random() < 0.3 else None
-        return [x.sid], {'exclude': excl}
+        return [x.sid], {'exclude': excl, 'bad_kind': rng.choice([None] * 8 + ['int', 'none'])}
 
     @staticmethod
     def run(S, objs, p):
-        if p['exclude'] is None:
+        if p.get('bad_kind') == 'int':
+            objs[0].reduce_dims(1)          # a bare index instead of a list: rejected (TypeError) only at a singleton mode
+        elif p.get('bad_kind') == 'none':
+            objs[0].reduce_dims(None)
+        elif p['exclude'] is None:
             objs[0].reduce_dims()
         else:
             objs[0].reduce_dims(p['exclude'])
